@@ -17,6 +17,7 @@
     eqother                                → Errors.Never
     path <cwd> <lang> <dirs> <module>      → ok <hex> | <Err>
     overlap <cwd> <lang> <dirs> <modules>  → True | False      (NoOverlap)
+    wwrite <path> <content>                → ok <hex file content after World.write> (the Writer alone)
     metafile <path:language items> <module> → ok <hex file whose md5 module_meta_factory records> | ValueError
 
   runner ops (state: one world); every one answers `<status>|<reads>|<writes>|<listing>`
@@ -351,6 +352,12 @@ def step (st : St) : List String → St × String
     | .ok p =>
       let st' := { st with w := st.w.write p (unhexD content), known := st.known ++ [p] }
       (st', obs st' "ok" [] [])
+  | ["wwrite", p, content] =>
+    -- `Writer(p).put(…).flush()` alone: the model's write op on the file map; answers the file content afterwards
+    let st' := { st with w := st.w.write (unhexD p) (unhexD content), known := st.known ++ [unhexD p] }
+    (st', match st'.w.files (unhexD p) with
+      | some f => s!"ok {Str.hex f.content}"
+      | none => "absent")
   | ["setdirs", dirs] =>
     let st' := { st with w := Tranp.Runner.step st.env st.w (.setDirs (parseList dirs)) }
     (st', obs st' "ok" [] [])
